@@ -13,7 +13,7 @@
    scalar equation by `ring` after identifying the arguments of uninterpreted functions (sqrt, sin, inv, ...)
    up to ring equality.  Division is `mul _ (inv _)` (field_theory's Fdiv_def), so no non-zero side conditions arise:
    the equations hold because model and code perform the same divisions. *)
-From Coq Require Import Ring Field ZArith QArith List Bool String Lia.
+From Coq Require Import Ring Field ZArith QArith List Bool String Lia Btauto.
 From CG Require Import Scalar Model.Vector Model.Point Model.Matrix Model.Angle Model.Quaternion Model.Euler Exec.ExecQ Proofs.Alg.
 Import ListNotations.
 
@@ -255,7 +255,10 @@ Ltac sym_tie Fth Hasym HQ O T A :=
   repeat (progress (repeat sym_cond Fth O T A; cbv beta iota));
   sym_unfold;
   repeat (progress (repeat sym_cond Fth O T A; cbv beta iota));
-  first [ reflexivity | sym_split; sym_eq Fth O T ].
+  first [ reflexivity
+        | (* a boolean result whose remaining tests were not all evaluated on this path (different evaluation order) *)
+          match goal with |- GBool _ = GBool _ => apply f_equal; btauto end
+        | sym_split; sym_eq Fth O T ].
 
 (* the executable instance satisfies the order hypothesis *)
 Lemma LtAsym_Qc : LtAsym OpsQ.
